@@ -579,3 +579,53 @@ func runScanDump(repo string) {
 		fmt.Printf("GLOBAL %-22s %-24s %v\n", g.Name, g.Class, g.Details)
 	}
 }
+
+// ---------------------------------------------------------------- ambient inputs (C02)
+
+// ambientCalls lists every call in pkg/codegen (non-test files) to a function that reads something other than its
+// arguments: the clock, random sources, the environment, the host, the process, the build information.
+var ambientFuncs = map[string]map[string]bool{
+	"time":          {"Now": true, "Since": true, "Until": true},
+	"math/rand":     nil, // every function of the package
+	"math/rand/v2":  nil,
+	"crypto/rand":   nil,
+	"os":            {"Getenv": true, "LookupEnv": true, "Environ": true, "Hostname": true, "Getpid": true, "Getppid": true, "Getwd": true, "UserHomeDir": true, "UserCacheDir": true, "UserConfigDir": true, "TempDir": true, "Executable": true, "Getuid": true, "Args": true},
+	"os/user":       nil,
+	"runtime/debug": {"ReadBuildInfo": true},
+	"runtime":       {"Version": true, "NumCPU": true, "GOMAXPROCS": true, "NumGoroutine": true, "Caller": true, "Callers": true},
+	"net":           nil,
+}
+
+func (s *scanned) ambientCalls() [][2]string {
+	var out [][2]string
+	for _, f := range s.files {
+		ast.Inspect(f, func(n ast.Node) bool {
+			sel, ok := n.(*ast.SelectorExpr)
+			if !ok {
+				return true
+			}
+			obj := s.info.Uses[sel.Sel]
+			if obj == nil || obj.Pkg() == nil {
+				return true
+			}
+			names, listed := ambientFuncs[obj.Pkg().Path()]
+			if !listed {
+				return true
+			}
+			if _, isType := obj.(*types.TypeName); isType {
+				return true
+			}
+			if names != nil && !names[obj.Name()] {
+				return true
+			}
+			fn := "(package level)"
+			if fd := s.funcOf(n); fd != nil {
+				fn = fd.Name.Name
+			}
+			out = append(out, [2]string{fn, obj.Pkg().Path() + "." + obj.Name()})
+			return true
+		})
+	}
+	sort.Slice(out, func(i, j int) bool { return out[i][0]+out[i][1] < out[j][0]+out[j][1] })
+	return out
+}
